@@ -25,6 +25,8 @@ CONSTANTS KU,       \* sequence of 3 keys: the universe
 KU_int == << [ty |-> "int", x |-> "4"], [ty |-> "int", x |-> "5"], [ty |-> "int", x |-> "6"] >>   \* three plain keys (also replayed as string, [2]int and struct keys)
 KU_f64 == << [ty |-> "float64", x |-> "+0"], [ty |-> "float64", x |-> "-0"], [ty |-> "float64", x |-> "NaN"] >>
 KU_any == << [ty |-> "int", x |-> "1"], [ty |-> "int64", x |-> "1"], [ty |-> "[]int", x |-> "0"] >>
+KU_anyc == << [ty |-> "complex64", x |-> "+0,-0", re |-> "+0", im |-> "-0"], [ty |-> "complex64", x |-> "-0,-0", re |-> "-0", im |-> "-0"],
+             [ty |-> "complex64", x |-> "1,+0", re |-> "1", im |-> "+0"] >>   \* two spellings of one complex key, and another key
 KU_anyf == << [ty |-> "float64", x |-> "-0"], [ty |-> "wrap/float64", x |-> "+0"], [ty |-> "wrap/[]int", x |-> "0"] >>
 
 VARIABLES script, pre, wit,
